@@ -24,8 +24,64 @@ def key_attrs(case, table_hex):
     return []
 
 
+def update_targets(op):
+    """the targets of the actions of an update expression as (root name, has steps), aliases resolved;
+    None when the text cannot be split (then nothing is claimed about it)"""
+    try:
+        text = hx(op.get("expr") or "").decode("latin1")
+    except Exception:
+        return None
+    names = {hx(a).decode("latin1"): hx(b).decode("latin1") for a, b in (op.get("names") or [])}
+    out, depth, cur, clause, acts = [], 0, "", None, []
+    toks, i = [], 0
+    # split into (clause keyword, action text) at depth 0
+    word = ""
+    parts = []
+    for ch in text + " ":
+        if ch in "([":
+            depth += 1
+        elif ch in ")]":
+            depth -= 1
+        if depth == 0 and (ch.isspace() or ch == ","):
+            if word in ("SET", "REMOVE", "ADD", "DELETE"):
+                if clause is not None:
+                    parts.append((clause, cur))
+                clause, cur, word = word, "", ""
+                continue
+            if ch == "," and clause is not None:
+                parts.append((clause, cur + word))
+                cur, word = "", ""
+                continue
+            cur += word + ch
+            word = ""
+        else:
+            word += ch
+    if clause is not None:
+        parts.append((clause, cur))
+    for clause, act in parts:
+        act = act.strip()
+        if not act:
+            continue
+        tgt = act.split("=")[0].strip() if clause == "SET" else act.split()[0]
+        root = tgt
+        for sep in ".[":
+            root = root.split(sep)[0]
+        root = root.strip()
+        out.append((names.get(root, root), tgt.strip() != root))
+    return out
+
+
+def targets_key_attr(case, op):
+    ts = update_targets(op)
+    if ts is None:
+        return False
+    keys = [hx(k).decode("latin1") for k in key_attrs(case, op["table"])]
+    return any(root in keys and not steps for root, steps in ts)
+
+
 def key_changing_update_before(case, sdk, step, table_hex=None):
-    """a successful UpdateItem before `step` returned an item whose key attributes differ from the request's key"""
+    """a successful UpdateItem before `step` whose expression targets a key attribute returned an item whose key
+    attributes differ from the request's key"""
     outs = case["impl"][sdk if sdk in ("v1", "v2") else "v2"]
     for i, (op, o) in enumerate(zip(case["ops"], outs)):
         if i > step:
@@ -33,6 +89,8 @@ def key_changing_update_before(case, sdk, step, table_hex=None):
         if op["op"] != "update" or "item" not in o or o["item"] is None:
             continue
         if table_hex is not None and op["table"] != table_hex:
+            continue
+        if not targets_key_attr(case, op):
             continue
         for name in key_attrs(case, op["table"]):
             a, b = item_get(op.get("keyItem", []), name), item_get(o["item"], name)
@@ -46,7 +104,8 @@ def _(prop, case, v):
     if case["kind"] != "hist":
         return False
     if v.get("sig") == "update-changed-key":
-        return True
+        # only an update that names the key attribute itself as the target of an action
+        return "step" in v and targets_key_attr(case, case["ops"][v["step"]])
     # every later read of that table sees an item whose key attributes no longer identify it
     return v.get("sig") in ("stored-key-differs", "get-mismatch", "search-content", "index-content", "pages-content", "pages-duplicate",
                             "pages-unbounded", "pages-unfinished", "pages-lost-after-delete", "order", "describe-index-count",
